@@ -52,7 +52,7 @@ def gen(rng, n):
              'Ei': loguniform(rng, 1e-3, 1e4) * 1.602176634e-22, 'Ef': loguniform(rng, 1e-3, 1e4) * 1.602176634e-22,
              'L1': loguniform(rng, 0.1, 1e3), 'L2': loguniform(rng, 0.1, 1e3),
              'units': {'tof': tu[0], 'L1': rng.choice(LUNITS)[0], 'L2': rng.choice(LUNITS)[0],
-                       'E': rng.choice(EUNITS if not single else EUNITS[::2])[0]},
+                       'E': rng.choice(EUNITS)[0]},
              'dtypes': {'tof': dt_tof, 'L1': rng.choice(['float64', 'float32', 'int64']) if rng.random() < 0.3 else 'float64',
                         'L2': rng.choice(['float64', 'float32']) if rng.random() < 0.3 else 'float64', 'E': dt_E},
              'ks': KS, 'extra': [0.5, 0.999, 1 - 1e-6, 1 - 1e-9, 1 + 1e-9, 1 + 1e-6, 1.001, 1.5, 3.0, 10.0]}
@@ -65,7 +65,7 @@ def gen(rng, n):
 
 def correspondence(ctx):
     rng = random.Random(ctx.seed)
-    groups = gen(rng, 90 if ctx.tier == 'quick' else 2500)
+    groups = gen(rng, 60 if ctx.tier == 'quick' else 2500)
     res = ctx.run_impl('c05_impl.py', {'groups': groups})
     h, mn = res['constants']['h']['value'], res['constants']['m_n']['value']
     terms, descs = [], []
@@ -74,13 +74,23 @@ def correspondence(ctx):
         if 'build_error' in r:
             ctx.note('harness could not build a group: ' + r['build_error'])
             continue
-        any32 = any(o['dtype'] == 'float32' for o in r['operands'].values())
+        any32 = (r.get('result') or {}).get('dtype') == 'float32'
         tol = '(1 # 1000000000000)' if not any32 else '(2 # 100000)'
         greq = {'operands': r['operands']}
-        for t, d in kcorr.element_cases(g['mode'], ['tof', 'L1', 'L2', 'E'], greq, r, tol):
+        routes = [('kernel', r)]
+        for route in ('graph', 'convert'):
+            if 'result_' + route in r:
+                routes.append((route, dict(r, result=r['result_' + route])))
+            elif 'error_' + route in r and 'error' not in r:
+                ctx.violation(f'{g["mode"]}:{route}-raises', f'{g["mode"]} via {route} raises {r["error_" + route]} where the kernel returns', {'group': g, 'error': r['error_' + route]})
+        for route, rr in routes:
+          for t, d in kcorr.element_cases(g['mode'], ['tof', 'L1', 'L2', 'E'], greq, rr, tol):
             terms.append(t)
             d['group'] = {k: g[k] for k in ('mode', 'units', 'dtypes')}
+            d['route'] = route
             descs.append(d)
+            if route != 'kernel':
+                continue
             if isinstance(d['impl'], dict):
                 v = d['impl']['value']
                 n_nan += v == 'nan'
@@ -103,7 +113,12 @@ def correspondence(ctx):
             u = 2e-5 if any32 else 1e-12     # scipp's unit conversion factors alone carry ~4e-14 (probed)
             if g['dtypes']['tof'] == 'int64':
                 continue    # an integer arrival time is not the physical one
-            if abs(got - want) > u * (cond * Efree + Efix):
+            in32 = any(o['dtype'] == 'float32' for o in r['operands'].values())
+            if abs(got - want) > u * (cond * Efree + Efix) and in32 and not any32 and abs(got - want) <= 2e-5 * (cond * Efree + Efix):
+                ctx.violation(f'{g["mode"]}:value-single-precision-level',
+                              f'{g["mode"]}: float64 result is only single-precision accurate with a float32 operand: Ei-Ef = {want} J, returned {got} J',
+                              {'group': g, 'got_si': got, 'want_si': want})
+            elif abs(got - want) > u * (cond * Efree + Efix):
                 ctx.violation(f'{g["mode"]}:conservation',
                               f'{g["mode"]}: Ei-Ef = {want} J but the implementation returns {got} J', {'group': g, 'got_si': got, 'want_si': want})
     header = ('From Coq Require Import QArith ZArith String List.\n'
@@ -115,12 +130,17 @@ def correspondence(ctx):
         ctx.violation('corr-shard-error', f'correspondence shard {name} did not evaluate: {e[:300]}', {'shard': name, 'error': e}, found_input=False)
     for i, why in sorted(fails.items()):
         d = descs[i]
-        ctx.violation(f'{d["kernel"]}:{why.split(":")[0]}',
-                      f'{d["kernel"]}: implementation differs from the model ({why}) on {d}', {'case': d, 'reason': why})
+        if why == 'value-single-precision-level':
+            ctx.violation(f'{d["kernel"]}:value-single-precision-level',
+                          f'{d["kernel"]}: float64 result is only single-precision accurate with a float32 operand: {d}', {'case': d, 'reason': why})
+            continue
+        ctx.violation(f'{d["kernel"]}:{d["route"]}:{why.split(":")[0]}',
+                      f'{d["kernel"]} via {d["route"]}: implementation differs from the model ({why}) on {d}', {'case': d, 'reason': why})
     ctx.coverage.update({
         'evaluations': len(terms),
         'distinct_nontrivial': len({repr(d['operands']) for d in descs if isinstance(d['impl'], dict)}),
-        'rule': 'per group: Ei,Ef in 1e-3..1e4 meV, L in 0.1..1e3 m, random units/dtypes; arrival times = physical t, '
+        'routes': {rt: sum(1 for d in descs if d['route'] == rt) for rt in ('kernel', 'graph', 'convert')},
+        'rule': 'each group is run through the kernel, the graph factory entry and scippneutron.convert; per group: Ei,Ef in 1e-3..1e4 meV, L in 0.1..1e3 m, random units/dtypes; arrival times = physical t, '
                 't0*(1+k*eps) for k in -2..1024 (t0 from the implementation), t0*{0.5..10}; non-trivial = a result element (NaN or value) was produced',
         'samples': descs[:2] + descs[7:9],
         'observed': {'nan': n_nan, 'finite': n_val, 'infinite': n_inf},
